@@ -60,7 +60,8 @@ Definition dec_branch (bqual : bytes) : N :=
 (* ---------------------------------------------------------------- server: XA state diagram of one branch *)
 
 Inductive cmd := START | STMT | END_ | PREPARE | COMMIT | ROLLBACK.
-Inductive res := ROk | RFault | RRmfail | RNota | RDupid.
+(* RRb: XA END of a rollback-only branch: the server answers an XA_RB* error and the branch is IDLE *)
+Inductive res := ROk | RFault | RRmfail | RNota | RDupid | RRb.
 Inductive bstate := Active | Idle | Prepared.
 
 Definition cmd_eqb (a b : cmd) : bool :=
@@ -143,6 +144,9 @@ Inductive op :=
        before it handed back driver.ErrBadConn (db.ExecContext: up to two of these follow a statement) *)
 | ORetire (target : nat)
     (* the pool retires the connection of op #target (idle limit, lifetime, db.Close): driver Close *)
+| ORelease (target : nat)
+    (* the next phase-two request for op #target lands on a process that does not hold the connection
+       (RM cluster) while the holder stays connected: the keeper there has no entry *)
 | OCheck (expired : bool)
     (* one pass of the two-phase timeout checker; expired: the hold time of whatever is prepared is over *)
 | ONop.
@@ -153,7 +157,8 @@ Record env := {
   e_bid : nat -> N;             (* branch id the coordinator assigns to the k-th registration *)
   e_refuse : nat -> bool;       (* the k-th registration is refused (result code or transport) *)
   e_fault : cmd -> nat -> bool; (* the n-th command of that kind fails without a state change *)
-  e_fbad : cmd -> nat -> bool   (* ... and the error it fails with is driver.ErrBadConn *)
+  e_fbad : cmd -> nat -> bool;  (* ... and the error it fails with is driver.ErrBadConn *)
+  e_frb : nat -> bool           (* the n-th XA END meets a rollback-only branch (XA_RB* error, branch left IDLE) *)
 }.
 
 Record br := {
@@ -227,6 +232,11 @@ Definition get_cst (s : st) (c : nat) : cst :=
 Definition iss (detach f : bool) (d : dbst) (own busy : bool) (c : cmd) : res * dbst :=
   if f then (RFault, d) else srv_step detach d own busy c.
 
+(* XA END, possibly of a rollback-only branch *)
+Definition iss_end (detach f rb : bool) (d : dbst) : res * dbst :=
+  if rb then match d with Some (Active, true) => (RRb, Some (Idle, true)) | _ => (RFault, d) end
+  else iss detach f d true false END_.
+
 Fixpoint count_cmd (c : cmd) (t : list (cmd * res)) : nat :=
   match t with
   | [] => 0%nat
@@ -254,25 +264,25 @@ Definition mk_br (o : nat) (xid : bytes) (b : N) (conn : nat) (d : dbst) (kept s
    XA PREPARE; commitFailure: [XA END(fail)] XA ROLLBACK) or Rollback (XA END(fail), XA ROLLBACK).
    busy: the session still carries another branch; slow: the statement outlasted the branch
    timeout; fS fM fE fE2 fP fR fR2: is the next START / STMT / END / second END / PREPARE /
-   ROLLBACK / second ROLLBACK made to fail.
+   ROLLBACK / second ROLLBACK made to fail; rE: the first XA END meets a rollback-only branch.
    Result: commands with results, server state of the branch, connection still held, outcome,
    xaActive afterwards. *)
-Definition auto_local (detach busy slow fS fM fE fE2 fP fR fR2 : bool)
+Definition auto_local (detach busy slow fS fM fE rE fE2 rE2 fP fR fR2 : bool)
   : list (cmd * res) * dbst * bool * ores * bool :=
   let '(r1, d1) := iss detach fS None true busy START in
   if negb (res_ok r1) then ([(START, r1)], d1, true, OErr, false)
   else
     let '(r2, d2) := iss detach fM d1 true false STMT in
     if negb (res_ok r2) then
-      let '(r3, d3) := iss detach fE d2 true false END_ in
+      let '(r3, d3) := iss_end detach fE rE d2 in
       if negb (res_ok r3) then ([(START, r1); (STMT, r2); (END_, r3)], d3, true, OErr, true)
       else
         let '(r4, d4) := iss detach fR d3 true false ROLLBACK in
         ([(START, r1); (STMT, r2); (END_, r3); (ROLLBACK, r4)], d4, false, OErr, false)
     else
-      let '(r3, d3) := iss detach fE d2 true false END_ in
+      let '(r3, d3) := iss_end detach fE rE d2 in
       if negb (res_ok r3) then
-        let '(r4, d4) := iss detach fE2 d3 true false END_ in
+        let '(r4, d4) := iss_end detach fE2 rE2 d3 in
         let '(r5, d5) := iss detach fR d4 true false ROLLBACK in
         ([(START, r1); (STMT, r2); (END_, r3); (END_, r4); (ROLLBACK, r5)], d5, false, OErr, false)
       else if slow then
@@ -362,7 +372,7 @@ Definition do_auto_core (E : env) (s0 : st) (g : nat) (via : option nat) (slow :
     let cnt := s_cnt s in
     let '(t, d, kept, o, act) :=
       auto_local (e_detach E) (busy_on (s_brs s) conn (s_nop s)) slow
-                 (f START (cnt START)) (f STMT (cnt STMT)) (f END_ (cnt END_)) (f END_ (S (cnt END_)))
+                 (f START (cnt START)) (f STMT (cnt STMT)) (f END_ (cnt END_)) (e_frb E (cnt END_)) (f END_ (S (cnt END_))) (e_frb E (S (cnt END_)))
                  (f PREPARE (cnt PREPARE)) (f ROLLBACK (cnt ROLLBACK)) (f ROLLBACK (S (cnt ROLLBACK))) in
     let bad := match o, err_src t with
                | OErr, Some (c, off) => e_fbad E c (cnt c + off)
@@ -488,6 +498,12 @@ Definition step (E : env) (s : st) (o : op) : st :=
                              else finish (retire_conn s c) OOk
                  | None => finish s OSkipped
                  end
+  | ORelease t => match find_br t (s_brs s) with
+                  | Some r => if is_prepared (r_db r) && negb (r_fin r)
+                              then finish (set_brs s (upd_br unkeep t (s_brs s))) OSkipped
+                              else finish s OSkipped
+                  | None => finish s OSkipped
+                  end
   | OCheck e => do_check E s e
   | ONop => finish s OSkipped
   end.
@@ -529,13 +545,14 @@ Fixpoint legal_from (s : sst) (t : list (cmd * res)) : option sst :=
   | [] => Some s
   | (c, r) :: t' =>
     match sstep s c, r with
-    | Some s', ROk => legal_from s' t'
+    | Some s', ROk | Some s', RRb => legal_from s' t'
     | Some _, RFault => legal_from s t'
-    | None, RNota | None, RFault =>
+    | None, RNota | None, RFault | None, RRmfail =>
         (* nothing to roll back: XA ROLLBACK of a branch that never started or is already
            rolled back, answered XAER_NOTA (or made to fail), changes nothing (reading in docs/C17.md) *)
+        (* likewise an XA END repeated on an already IDLE branch: refused, no effect *)
         match c, s with
-        | ROLLBACK, S0 | ROLLBACK, SR => legal_from s t'
+        | ROLLBACK, S0 | ROLLBACK, SR | END_, SI => legal_from s t'
         | _, _ => None
         end
     | _, _ => None
@@ -545,11 +562,15 @@ Definition legal_trace (t : list (cmd * res)) : bool :=
   match legal_from S0 t with Some _ => true | None => false end.
 
 (* accepted: the commands the server ACCEPTED form a word of the language's prefix closure *)
+(* results with which the server moved the branch on *)
+Definition acc (c : cmd) (r : res) : bool :=
+  match r, c with ROk, _ => true | RRb, END_ => true | _, _ => false end.
 Fixpoint accepted_from (s : sst) (t : list (cmd * res)) : option sst :=
   match t with
   | [] => Some s
-  | (c, ROk) :: t' => match sstep s c with Some s' => accepted_from s' t' | None => None end
-  | _ :: t' => accepted_from s t'
+  | (c, r) :: t' =>
+      if acc c r then match sstep s c with Some s' => accepted_from s' t' | None => None end
+      else accepted_from s t'
   end.
 Definition accepted_legal (t : list (cmd * res)) : bool :=
   match accepted_from S0 t with Some _ => true | None => false end.
